@@ -41,7 +41,8 @@ def gen_cases(ctx, label, n_inst):
         limit = rng.choice([None, 5, 5, 2])
         text = instgen.render(ast)
         base = dict(text=text, na=ast['na'], twopl=twopl, pc=pc, stab=stab, bf=False,
-                    crits=[[c, x] for c, x in crits], argv=argv, ast=ast, limit=limit)
+                    crits=[[c, x] for c, x in crits], argv=argv, ast=ast, limit=limit,
+                    threads=(2 if i % 3 == 1 else None))      # solve(threads=...) is a documented pass-through
         # learn the number of solves from a fault-free run
         o = session.session_run(text, argv, [['solve', limit, 0]])
         K = len(o['ops'][0]['snaps']) if o['ops'] else 0
@@ -53,7 +54,7 @@ def gen_cases(ctx, label, n_inst):
 
 
 def run_case(inp):
-    hist = [['solve', inp['limit'], 0], ['get_results'], ['get_results_long']]
+    hist = [['solve', inp['limit'], 0, inp.get('threads')], ['get_results'], ['get_results_long']]
     return session.session_run(inp['text'], inp['argv'], hist, faults={0: inp['plan']})
 
 
@@ -66,7 +67,8 @@ class Faults(Relation):
                 'for runs with K solves (per-rank solves of generous/greedy included) every kind in {Infeasible, Unbounded, '
                 'Undefined, Not Solved, time-limit stop with incumbent (PuLP says Optimal; only with a limit)} at sampled '
                 '(quick) / every (thorough) position, once (transient) or from that solve on (persistent), and pairs of '
-                'faults; scripted clock; problems, statuses, texts compared with the model; non-trivial = K >= 2 and a '
+                'faults; a third of the runs with solve(threads=2); scripted clock; problems, statuses, texts compared with the '
+                'model; non-trivial = K >= 2 and a '
                 'fault injected')
 
     def cases(self, ctx):
@@ -92,7 +94,7 @@ class Faults(Relation):
 
     def stats(self, inp, obs):
         d = {'K=%d' % inp['K']: 1, 'limit' if inp['limit'] is not None else 'no-limit': 1,
-             'faults=%d' % len(inp['plan']): 1}
+             'faults=%d' % len(inp['plan']): 1, 'threads=2': 1 if inp.get('threads') else 0}
         for k, f in inp['plan'].items():
             d['kind:' + f['kind'] + (':persistent' if k == 'from' else '')] = 1
         return d
